@@ -662,6 +662,14 @@ def straightline_ex(stmts, env=None, effect_havoc=None):
             tgt, val = st.target, st.value
         elif isinstance(st, ast.AnnAssign) and st.value is None:
             continue
+        if tgt is not None and isinstance(tgt, (ast.Tuple, ast.List)) and isinstance(val, (ast.Tuple, ast.List)) and len(tgt.elts) == len(val.elts) \
+                and all(isinstance(t_, ast.Name) or (isinstance(t_, ast.Attribute) and dotted(t_)) for t_ in tgt.elts) \
+                and not any(isinstance(v_, ast.Starred) for v_ in val.elts):
+            # a, b = e1, e2: all right-hand sides are evaluated before any name is bound
+            subs = [_SubstEnv(env).visit(copy.deepcopy(v_)) for v_ in val.elts]
+            for t_, sv in zip(tgt.elts, subs):
+                env[t_.id if isinstance(t_, ast.Name) else dotted(t_)] = sv
+            continue
         if tgt is not None:
             key = tgt.id if isinstance(tgt, ast.Name) else dotted(tgt)
             sub = _SubstEnv(env).visit(copy.deepcopy(val))
